@@ -20,6 +20,7 @@ package processor
 import (
 	"fmt"
 	"io"
+	"math"
 	"strconv"
 
 	"github.com/siglens/siglens/pkg/segment/query/iqr"
@@ -124,6 +125,16 @@ func compareFloat(a, b float64) compare {
 
 	if a < b {
 		return LESS
+	}
+
+	if math.IsNaN(a) || math.IsNaN(b) {
+		// NaN sorts after every number and is equal to NaN.
+		if math.IsNaN(a) && math.IsNaN(b) {
+			return EQUAL
+		}
+		if math.IsNaN(b) {
+			return LESS
+		}
 	}
 
 	return GREATER
